@@ -9,7 +9,7 @@ NOTES = ("Driver: /verif/verif (python3, stdlib). Every check rebuilds harness/c
 
 CLAIMED = {
  "C10": dict(
-    technique="model-based testing of the stream (rapid scripts: frames x chunking x consumer x failure x GOMAXPROCS) against a de-framer reference model with multiset/subset oracles, under the race detector",
+    technique="model-based testing of the stream (rapid scripts: frames x chunking x consumer x failure x second live stream x GOMAXPROCS) against a de-framer reference model with multiset/subset oracles, under the race detector",
     level_text="Generated scripts (1..400 well-formed frames of 8..6000 bytes incl. sizes around/above the pool buffers, arbitrary read chunking with forced cuts inside length prefixes, incomplete tails, slow consumers, connection failure after any byte, GOMAXPROCS 1..16) are played through a scripted in-memory connection; delivered messages must equal the complete frames as multisets (or be a sub-multiset after a failure, with exactly one error), nothing extra, and every delivered message's deep dump must be unchanged at the end. Both a copying parser (exact framing) and the real openflow13.Parse on conformant frames are used; built with -race.",
     level_note="Goroutine interleavings are sampled, not enumerated; loss is observable only as non-arrival within 30 s; frames are well formed by the property's precondition."),
  "C11": dict(
@@ -33,7 +33,7 @@ CLAIMED = {
     level_text="Header values of every kind built through the API must encode to exactly the bytes the RFC layouts give for the same arguments, report that size, decode back to an observably equal value (dynamic payload types by ethertype / protocol / next-header chain included) and re-encode identically; frames are also taken bytes-first (incl. priority tags). Every value of VLAN TCI, IPv4 version/IHL, DSCP/ECN, flags/fragment offset, IPv6 class, flow label (all 2^20 in thorough), TCP offset/flags, fragment offset/M and IGMPv3 S/QRV is enumerated.",
     level_note="Trusts my transcription of the RFC layouts (harness/gen/packet.go, proto2.go); LLDP TLVs are judged for self-consistency only (the library's Length convention is not 802.1AB's). The dropped priority tag is a listed known finding."),
  "C05": dict(
-    technique="property-based testing (rapid): encode/decode/re-encode round trip over API-built values, decoder-built values and elements in mixed lists, compared through a reflective observer",
+    technique="property-based testing (rapid): encode/decode/re-encode round trip over API-built values, decoder-built values, elements alone and followed by others, frames followed by frames, compared through a reflective observer; coverage-guided rapid.MakeFuzz driver in thorough",
     level_text="Top-level messages of every controller- and switch-originated kind built through the API are encoded and decoded through Parse (or the caller-allocated receiver for kinds Parse does not dispatch); values that only the decoder can produce (parsed from conformant frames of the independent encoder, incl. ONF experimenter OXMs) go through the same cycle; every action/instruction/bucket/match-field kind is decoded alone and followed by another element. Oracle: decode succeeds, same Go kind, equal observable dump under a closed normalisation list, Len() == extent, re-encoding == original bytes.",
     level_note="Sampling. Normalisations are listed in the evidence rule; five decode-direction gaps (multipart request, bundle-add of undispatched kinds) are listed known findings."),
  "C08": dict(
@@ -65,15 +65,15 @@ CLAIMED = {
     level_text="Generated build programs over all 17 controller-originated message kinds, every command variant, nested lists up to the 64 KiB frame limit; each encoding is judged against version 4, the kind's type code, header length == bytes produced == Len() before and after encoding. Sampling, not proof: absence of violations is not shown.",
     level_note="Trusts the generator's preconditions (DESIGN.md Appendix B) and the type-code table of harness/spec."),
  "C02": dict(
-    technique="property-based testing (rapid) with an independent specification-derived TLV walker (harness/spec) as oracle; builder call histories via rapid state machine",
+    technique="property-based testing (rapid) with an independent specification-derived TLV walker (harness/spec) as oracle; builder call histories via a rapid state machine (adder methods as rules, walk after every step)",
     level_text="Every generated message, stand-alone element and builder history is encoded by the library and walked by an independent strict decoder written from OF1.3.5 / nicira-ext.h / meta-flow.h / EXT-230 that advances only by declared lengths and rejects wrong lengths, missing alignment, non-zero padding and unknown codes.",
     level_note="The wire model is my transcription of the specifications (DESIGN.md Appendix A); it is self-tested (Decode(Encode(t))==t) and must not import the library."),
  "C03": dict(
-    technique="property-based testing (rapid), dual construction: library bytes decoded by the independent wire model must equal the tree the constructor arguments denote",
+    technique="property-based testing (rapid), dual construction: library bytes decoded by the independent wire model must equal the tree the constructor arguments denote; builder-history state machine; coverage-guided rapid.MakeFuzz driver in thorough",
     level_text="Each case draws constructor arguments once and yields both the library value and the specification tree they denote; the independent decoder must recover exactly that tree (values, optional parts, order) from the library's bytes.",
     level_note="Trusts the wire model and the generator's statement of what each constructor denotes; two OF1.0-layout request bodies are listed known findings."),
  "C04": dict(
-    technique="property-based testing (rapid), differential against an independent encoder: conformant switch-originated frames from the wire model are parsed by the library and field-wise extracted back into the model's tree",
+    technique="property-based testing (rapid), differential against an independent encoder: conformant switch-originated frames from the wire model (incl. wire-only ONF experimenter OXMs and standard actions) are parsed by the library and field-wise extracted back into the model's tree; coverage-guided rapid.MakeFuzz driver in thorough",
     level_text="Specification-conformant frames of every switch-originated kind the library has a receiver for are produced by the independent encoder, parsed through openflow13.Parse, and a per-kind extractor over exported fields must rebuild the generated tree exactly (ports, stats records, match fields, instructions, actions, packet payload).",
     level_note="Trusts the wire model's encoder and the extractors in harness/checks/extract_test.go; OF1.0-layout stats replies and the echo payload are listed known findings."),
  "C16": dict(
